@@ -1,25 +1,15 @@
 #!/usr/bin/env python3
-"""Helper (not run by ./check): proposes the hand-maintained table `cover` of lean/NA/Proofs/C17Cover.lean
-from the current lean/NA/Gen/Sinks.lean.  Review every line whose class is not `clean`/`wrapper` before pasting."""
+"""Helper (not run by ./check): lists the sink sites of lean/NA/Gen/Sinks.lean that need an entry in the
+hand-maintained table `cover` of lean/NA/Proofs/C17Cover.lean — those into which a secret flows, raw
+(taintCode 9) or through a redaction step (taintCode 1).  Sites with taintCode 0 need no entry.
+The id of a site hashes (package, sink kind, secret class of the taint, ordinal among the sites of the
+package with the same kind and class)."""
 import re, sys
-rows = []
 for line in open(sys.argv[1] if len(sys.argv) > 1 else '/verif/lean/NA/Gen/Sinks.lean'):
     m = re.match(r'\s*\{ id := (\d+), taintCode := (\d), kindCode := (\d), kind := "([^"]*)", pkg := "([a-z]+)", fn := "([^"]+)", sink := "([^"]+)", arg := (".*"), taint := "([^"]+)" \},?', line)
-    if m:
-        rows.append(m.groups())
-out = []
-for id_, code, kc, kind, pkg, fn, sink, arg, taint in rows:
-    if taint == 'wrapper': c = 'wrapper'
-    elif code == '9': c = 'fc17'
-    elif 'M:passRE@' in taint: c = 'maskError'
-    elif 'M:passRE' in taint: c = 'maskUri'
-    elif 'M:keyRE' in taint: c = 'maskBody'
-    elif 'M:apiRE' in taint: c = 'maskApi'
-    elif pkg == 'console': c = 'deviceOutput'
-    elif pkg == 'doapprove' and 'line' in arg and sink in ('fmt.Println', 'fmt.Printf', 'doapprove.logHistory'): c = 'copyOfRunLog'
-    elif fn == 'nsx.State.LoadDevice$lit1': c = 'nsxLogin'
-    else: c = 'clean'
-    a = eval(arg)[:64].replace('\n', '\\n')
-    out.append(f"  ({id_}, .{c}),  -- {kind}: {fn}: {sink}({a})")
-out[-1] = out[-1].replace("),  --", ")   --", 1)
-print("def cover : List (Nat × Cover) := [\n" + "\n".join(out) + "\n]")
+    if m and m.group(2) != '0':
+        id_, code, kc, kind, pkg, fn, sink, arg, taint = m.groups()
+        c = 'fc17?' if code == '9' else {'M:passRE': 'maskUri', 'M:keyRE': 'maskBody', 'M:apiRE': 'maskApi'}.get(
+            next((t.split('@')[0] for t in taint.split('+') if t.startswith('M:')), ''), '?')
+        if code == '1' and 'M:passRE@' in taint: c = 'maskError'
+        print(f"  ({id_}, .{c}),  -- {pkg}, {kind}, {taint}  ({fn}: {sink})")
